@@ -40,4 +40,17 @@ CHECKS = [
        "on the template cache is not simulated here (the map's own thread safety is C24).",
        "deterministic simulation: virtual-time asyncio loop + seeded executor/latency/cancellation + simulated storage; refinement against the non-caching loader",
        "DESIGN.md section 4, C23"),
+    _c("C22",
+       "Seeded search over template names x sandbox trees x loader variants x schedules: every request through "
+       "FileSystemLoader, CachingFileSystemLoader and PackageLoader (sync, concurrent async tasks with seeded "
+       "executor completion, direct and via include/render) is judged against an independent string-level "
+       "resolver over a simulator-owned tmpfs tree whose every file carries a unique inside/outside token; a "
+       "separate fault configuration injects errno faults and content edits at the k-th storage call of a request "
+       "and only relaxes 'may fail', never 'may return outside or wrong data'. Evidence over sampled names and "
+       "trees, not proof.",
+       "POSIX semantics on tmpfs; directory-backed packages only; the tree is static in the fault-free "
+       "configuration (check-then-open races against a concurrently mutated tree are outside the stated quantifier); "
+       "the model resolver mirrors pathlib's documented suffix rule for 'ext'.",
+       "deterministic simulation: simulator-owned storage with errno/edit fault plan + virtual-time asyncio loop; oracle = independent path resolver over unique content tokens",
+       "DESIGN.md section 4, C22"),
 ]
